@@ -319,9 +319,11 @@ fn run_ops(rng: &mut Rng, l: Limits, verb: &str, data: &[u8], drains: bool, out:
     out.push(l.op());
     let cuts = cut_points(rng, data, l);
     let mut prev = 0;
-    let fixed_method = if rng.chance(1, 4) { Some(*rng.pick(&METHODS)) } else { None };
+    // the production encoder is also fed through its `ZeroCopySink` impl (S = append_borrow, T = append_copy)
+    let methods: &[&str] = if verb == "enc" && l.prod { &["b", "c", "a", "r", "S", "T", "S", "T"] } else { &METHODS };
+    let fixed_method = if rng.chance(1, 4) { Some(*rng.pick(methods)) } else { None };
     for c in cuts.iter().copied().chain(std::iter::once(data.len())) {
-        let m = fixed_method.unwrap_or_else(|| *rng.pick(&METHODS));
+        let m = fixed_method.unwrap_or_else(|| *rng.pick(methods));
         out.push(format!("{} {} {}", verb, m, to_hex(&data[prev..c])));
         prev = c;
         if rng.chance(1, 40) {
